@@ -86,6 +86,7 @@ class LangServer:
             if k.startswith("debug_") and k != "debug_log":
                 continue
             setattr(self, k, v)
+        self._option_names = tuple(settings)
 
         self.sync_type: int = 2 if self.incremental_sync else 1
         self.post_messages = []
@@ -1588,6 +1589,7 @@ class LangServer:
                 config_dict = json5.load(jsonfile)
                 if not isinstance(config_dict, dict):
                     raise ValueError("the configuration must be a JSON object")
+                self._check_config_types(config_dict)
 
                 # Include and Exclude directories
                 self._load_config_file_dirs(config_dict)
@@ -1614,6 +1616,37 @@ class LangServer:
         except ValueError as e:
             msg = f'Error: "{e}" while reading "{self.config}" Configuration file'
             self.post_message(msg)
+
+    def _check_config_types(self, config_dict: dict) -> None:
+        """Check that options have values of the same kind as on the command line
+
+        Raises
+        ------
+        ValueError
+            for the first option with a value of the wrong type
+        """
+
+        def is_str_list(value) -> bool:
+            return isinstance(value, list) and all(isinstance(i, str) for i in value)
+
+        for key, value in config_dict.items():
+            if key not in self._option_names:
+                continue
+            current = getattr(self, key, None)
+            if isinstance(current, bool):
+                valid = isinstance(value, bool)
+            elif isinstance(current, int):
+                valid = isinstance(value, int) and not isinstance(value, bool)
+            elif isinstance(current, str):
+                valid = isinstance(value, str)
+            elif isinstance(current, (set, list)):
+                valid = is_str_list(value)
+            elif isinstance(current, dict):
+                valid = isinstance(value, dict) or is_str_list(value)
+            else:
+                valid = True
+            if not valid:
+                raise ValueError(f"invalid value {value!r} for option '{key}'")
 
     def _load_config_file_dirs(self, config_dict: dict) -> None:
         self.excl_paths = set(config_dict.get("excl_paths", self.excl_paths))
